@@ -269,6 +269,9 @@ class DirectiveArgumentDefaultValueChange(SchemaChange):
         self.directive = directive
         self.old_argument = old_argument
         self.new_argument = new_argument
+        # Dropping the default of a non-null argument makes it required.
+        if new_argument.required and not old_argument.required:
+            self.severity = SchemaChangeSeverity.BREAKING
 
 
 class DirectiveArgumentChangedType(SchemaChange):
@@ -358,6 +361,9 @@ class FieldArgumentDefaultValueChange(SchemaChange):
         self.field = field
         self.old_argument = old_argument
         self.new_argument = new_argument
+        # Dropping the default of a non-null argument makes it required.
+        if new_argument.required and not old_argument.required:
+            self.severity = SchemaChangeSeverity.BREAKING
 
 
 class FieldArgumentChangedType(SchemaChange):
@@ -548,6 +554,9 @@ class InputFieldDefaultValueChange(SchemaChange):
         self.type = input_type
         self.old_field = old_field
         self.new_field = new_field
+        # Dropping the default of a non-null field makes it required.
+        if new_field.required and not old_field.required:
+            self.severity = SchemaChangeSeverity.BREAKING
 
 
 class InputFieldChangedType(SchemaChange):
